@@ -2,8 +2,10 @@
   Props/C09.lean — property theorems for C09 (trash-list shows exactly what is in the trash after
   any history).  The trash is abstracted to its *bag*: for each trash directory the set of info
   names with their contents.  trash-list is a function of the bag; every command's core changes
-  the bag by exactly its own entry.  (The induction over whole command histories at string level is
-  the part validated by the check's history runs, see `C09_full`.)
+  the bag by exactly its own entry.  The induction over whole histories of operations on one trash
+  directory (resolved layer) is Props/C09Hist.lean (`C09Hist.history`, `list_after_history`); what
+  remains validated rather than proved is the string-level front of each command (which canonical
+  arguments a command line resolves to) — the check's history runs.
 -/
 import TrashVerif.Props.PutCoreDefs
 import TrashVerif.Model.Cmds
@@ -14,12 +16,12 @@ open TrashVerif PutCore Prog FS
 /-- the bag of one trash directory: which info names exist, with which node -/
 def bag (fs : FS) (infoC : CPath) : Bytes → Option Node := fun n => fs.get (infoC ++ [n])
 
-/- The full history-level statement — "after every finite sequence of command runs the lines printed
-   by trash-list are, as a multiset, the rendering of the bag obtained by applying `put adds one,
-   restore/rm/empty remove the selected` to the initial bag" — is NOT proved as one theorem: the
-   per-command step theorems below are at the resolved layer, and composing them over string-level
-   histories needs the path-resolution bridge for every command.  The check validates that
-   composition on seeded histories (listing = Spec reading of the on-disk bag after every step). -/
+/- The history-level statement — "after every finite sequence of operations the bag is the initial bag
+   with `put adds one, restore/rm/empty remove the selected` applied" — is `C09Hist.history` (resolved
+   layer, one trash directory, invariant + local side conditions).  The step theorems below are its
+   ingredients.  Composing them over *string-level* command lines needs the path-resolution bridge of
+   every command; the check validates that composition on seeded histories (listing = Spec reading
+   of the on-disk bag after every step, every step's effect = Effects.check). -/
 
 /-- trash-list's output is a function of what the scan finds and the bags: one event per
     trashinfo name, in directory order, no file-system call. -/
